@@ -95,7 +95,7 @@ def run_case(case):
                     for a, wa, Ea in zip(sh, w, E):
                         out[:, zt] += wa * (Ea @ f[:, (zt + a) % nz])
                 return out
-            datas = [('const', np.full((nq, nz), 2.5))] + [('dense%d' % k, d) for k, d in enumerate(dense)]
+            datas = [('const', np.full((nq, nz), 2.5))] + [('dense%d' % k, d) for k, d in enumerate(dense)] + [('tiny', 1e-11 * dense[0])]      # the step is linear in f
             full = cls in (0.25, '-wrap') and (r0 + rI, v0 + vI) in ((0, 4), (2, 1)) and vp == [1, 1]
             if full:
                 for a, b in itertools.product(range(nq), range(nz)):
@@ -113,7 +113,7 @@ def run_case(case):
                     V('step-exception:' + type(e).__name__, '%s dt=%g r=%g v=%g data=%s: %s: %s' % (tag, dt, r, v, name, type(e).__name__, e))
                     break
                 want = ref(f)
-                tol = 1e-12 * cond * max(1.0, np.abs(f).max()) * 6 * max(1.0, max(abs(x) for x in w))
+                tol = 1e-12 * cond * max(1e-300, np.abs(f).max()) * 6 * max(1.0, max(abs(x) for x in w))          # relative to the data
                 err = np.abs(g - want).max()
                 worst = max(worst, err / tol)
                 if not err <= tol:
